@@ -116,6 +116,7 @@ type Contracts struct {
 	Specs   map[string]*SpecFunc
 	Axioms  []*Axiom
 	ChanInvs []*ChanInv
+	Attrs    map[string]bool // ghost object attributes: name -> false for every object on entry
 	Assumes []string // textual record of every 'trusted'/'assume'
 }
 
@@ -128,7 +129,7 @@ var tagRe = regexp.MustCompile(`^\[([A-Za-z0-9_, ]+)(?::([A-Za-z0-9_\-\.]+))?\]\
 var keywords = map[string]bool{
 	"func": true, "props": true, "requires": true, "ensures": true, "modifies": true,
 	"loop": true, "invariant": true, "decreases": true, "inline": true, "trusted": true,
-	"pure": true, "unroll": true, "spec": true, "package": true, "noterm": true, "assert": true, "axiom": true, "lemma": true, "callsite": true, "ghost": true, "onassign": true, "oncall": true, "aftercall": true, "closure": true, "chaninv": true, "assumecall": true, "dyncall": true,
+	"pure": true, "unroll": true, "spec": true, "package": true, "noterm": true, "assert": true, "axiom": true, "lemma": true, "callsite": true, "ghost": true, "onassign": true, "oncall": true, "aftercall": true, "closure": true, "chaninv": true, "assumecall": true, "dyncall": true, "attr": true,
 }
 
 // LoadFile parses a contract file. pkgPath is the default package path
@@ -225,6 +226,18 @@ func (cs *Contracts) LoadFile(path string, pkgPath string, external bool) error 
 				return errf("%v", err)
 			}
 			cs.Axioms = append(cs.Axioms, &Axiom{PkgPath: pkgPath, Text: rest, E: e, File: path, Line: l.line})
+			cur, curLoop = nil, nil
+		case "attr":
+			// attr <name> [initially-false]: a ghost boolean attribute of objects (attr(name, x) in contracts).
+			// Fresh objects have it false; with "initially-false" every object has it false on entry.
+			f := strings.Fields(rest)
+			if len(f) == 0 {
+				return errf("attr needs a name")
+			}
+			if cs.Attrs == nil {
+				cs.Attrs = map[string]bool{}
+			}
+			cs.Attrs[f[0]] = len(f) > 1 && f[1] == "initially-false"
 			cur, curLoop = nil, nil
 		case "chaninv":
 			// chaninv <elem type>: <expr over v>  -- every value sent on a channel of this element
